@@ -373,6 +373,38 @@ def option_handed_down_rule(index, rep, rid, modules):
     return n
 
 
+def settings_clone_rule(index, rep, rid, modules):
+    """A method that builds a new object of its own class from its own settings (two or more constructor arguments taken
+    from self) passes ALL the constructor's options: one left out silently falls back to its default in the result."""
+    n = 0
+    for m in modules:
+        for f in index.functions_in_module(m):
+            if f.cls is None or f.name == "__init__":
+                continue
+            init = None
+            for b in index.mro(f.cls):
+                if "__init__" in b.methods:
+                    init = b.methods["__init__"]
+                    break
+            if init is None:
+                continue
+            kp = [p_ for p_ in init.params if p_ != "self"]
+            for c in calls_in(f.node):
+                if norm(c.func) not in (f.cls.name, "self.__class__", "type(self)"):
+                    continue
+                if any(kw.arg is None for kw in c.keywords) or any(isinstance(a, ast.Starred) for a in c.args):
+                    continue
+                from_self = [kw for kw in c.keywords if any(isinstance(x, ast.Name) and x.id == "self" for x in ast.walk(kw.value))]
+                if len(from_self) < 2:
+                    continue
+                n += 1
+                given = {kw.arg for kw in c.keywords} | set(kp[:len(c.args)])
+                miss = [p_ for p_ in kp if p_ not in given]
+                rep.check(not miss, rid, f.qualname, "settings %s not carried into the new %s" % (miss, f.cls.name), fn_where(f, c), "%s carries all %d constructor options into the new %s" % (f.qualname, len(kp), f.cls.name),
+                          "%s builds a new %s from this object's settings but leaves out %s: the result silently runs on the defaults for those, so `a + b` followed by further additions behaves differently from `a += b` (node ages no longer forced, tip dates forgotten) although the operands were configured alike" % (f.qualname, f.cls.name, miss))
+    return n
+
+
 def save_restore_rule(rep, rid, fi):
     """`old = X.a; X.a = <new>; ...; X.a = old`: the temporary setting is undone on every normal path from where it was made."""
     cfg = cfg_of(fi)
@@ -1153,6 +1185,7 @@ def generic_rules(prop, index, rep):
     with rep.section(rid):
         nw = arg_wiring_rule(index, rep, rid, mods)
         nw += option_handed_down_rule(index, rep, rid, mods)
+        nw += settings_clone_rule(index, rep, rid, mods)
         rep.ob(rid, "src/dendropy", "%d resolved calls in the property's modules examined" % nw, True)
         rep.floor(rid, "resolved calls in the property's modules", 50, nw)
     rid3 = "R%s.N" % prop[1:]
